@@ -156,3 +156,21 @@ Proof.
          (Mk [97;97; 38;108;116;59; 38;108;116;59; 38;108;116;59]%N).
   vm_compute. split; reflexivity.
 Qed.
+
+(* --- indent against the DOCUMENTED lines of the text (every line break ends a line; a text
+   that ends with a break has an empty last line).  The `s + "\n"` quirk of do_indent yields
+   exactly these lines unless the text ends with a lone carriage return ... *)
+Theorem C23_indent_documented_lines_partial : forall s w first blank,
+  ends_with_cr s = false ->
+  do_indent s w first blank = spec_indent (indention_of w) first blank (doc_lines s).
+Proof.
+  intros s w first blank H. rewrite indent_spec. unfold splitlines, doc_lines.
+  now rewrite (splitlines_quirk (length s) s [] (le_n _) H).
+Qed.
+Print Assumptions C23_indent_documented_lines_partial.
+
+(* ... in which case the final break is dropped: "a\r"|indent is "a" although "a\n"|indent is
+   "a\n" (recorded finding C23-indent-trailing-cr) *)
+Theorem C23_indent_documented_lines_refuted : exists s w first blank,
+  do_indent s w first blank <> spec_indent (indention_of w) first blank (doc_lines s).
+Proof. exists [97; 13]%N, (WInt 4), false, false. vm_compute. discriminate. Qed.
